@@ -81,17 +81,21 @@ Definition field_strict (C : cfg) (S : schema) (nested : bool) (tn : string) (f 
        | Err _ => false
        end.
 
-Fixpoint sels_strict (fuel : nat) (C : cfg) (S : schema) (nested : bool) (tn : string) (sels : list sel)
-  : bool :=
+Fixpoint sels_strict (fuel : nat) (C : cfg) (S : schema) (frs : list fragdef) (nested : bool) (tn : string)
+         (sels : list sel) : bool :=
   match fuel with
   | O => false
   | Datatypes.S g =>
-      forallb (fun f =>
-        field_strict C S nested tn f &&
-        match fn_sub f, schema_field_type S tn (fn_name f) with
-        | Some sub, Ok t => sels_strict g C S true (base_name t) sub
-        | _, _ => true
-        end) (fnodes_of sels)
+      match flatten g S frs tn tn sels with
+      | Some fns =>
+          forallb (fun f =>
+            field_strict C S nested tn f &&
+            match fn_sub f, schema_field_type S tn (fn_name f) with
+            | Some sub, Ok t => sels_strict g C S frs true (base_name t) sub
+            | _, _ => true
+            end) fns
+      | None => false
+      end
   end.
 
 (* ------------------------------------------------------------------------------------------- *)
@@ -197,7 +201,7 @@ Section LevelS.
   Hypothesis W_class_obj : forall c j, W (AClass c) j = true -> exists kv, j = JObj kv.
   Hypothesis W_class : forall pub cn2 tn2 sels2 out2 pub2 kv,
       parse_type_def fuel' C S frs pub cn2 tn2 sels2 false [] (Some [tn2]) = Ok (out2, pub2, false) ->
-      sels_ok g true C S true tn2 sels2 = true -> sels_strict gs C S true tn2 sels2 = true ->
+      sels_ok g true C S frs true tn2 sels2 = true -> sels_strict gs C S frs true tn2 sels2 = true ->
       table_ok cs out2 -> W (AClass cn2) (JObj kv) = true ->
       ev (fun fc => obj_lconf fc S frs tn2 sels2 kv).
 
@@ -208,12 +212,12 @@ Section LevelS.
 
   Definition sub_strict (tn : string) (f : fnode) : bool :=
     match fn_sub f, schema_field_type S tn (fn_name f) with
-    | Some sub, Ok t => sels_strict gs C S true (base_name t) sub
+    | Some sub, Ok t => sels_strict gs C S frs true (base_name t) sub
     | _, _ => true
     end.
 
   Lemma field_value_rev cn tn tv nested f pf ctx pub0 exc pub1 v :
-    field_ok (sels_ok g true C S true) S nested tn f = true ->
+    field_ok (sels_ok g true C S frs true) S nested tn f = true ->
     field_strict C S nested tn f = true -> sub_strict tn f = true ->
     tv = (if nested then Some [tn] else None) ->
     field_pf C S frs fuel' cn tn tv f = Ok (pf, ctx) ->
@@ -300,7 +304,7 @@ Section LevelS.
 
   Lemma level_facts_rev cn tn tv nested fns pub pfl extra pub' :
     fields_run (parse_type_def fuel' C S frs) C S frs fuel' cn tn tv fns pub pfl extra pub' false ->
-    forallb (field_ok (sels_ok g true C S true) S nested tn) fns = true ->
+    forallb (field_ok (sels_ok g true C S frs true) S nested tn) fns = true ->
     forallb (fun f => field_strict C S nested tn f && sub_strict tn f) fns = true ->
     tv = (if nested then Some [tn] else None) -> table_ok cs extra ->
     Forall2 (field_facts_rev tn) fns pfl.
@@ -386,7 +390,7 @@ Qed.
 
 Theorem obj_strict C S frs : forall fuel g gs nested pub cn tn sels tv out pub' cs kv n,
   parse_type_def fuel C S frs pub cn tn sels false [] tv = Ok (out, pub', false) ->
-  sels_ok g true C S nested tn sels = true -> sels_strict gs C S nested tn sels = true ->
+  sels_ok g true C S frs nested tn sels = true -> sels_strict gs C S frs nested tn sels = true ->
   tv = (if nested then Some [tn] else None) -> table_ok cs out ->
   accepts n cs (schema_enums S) (AClass cn) (JObj kv) = true ->
   covers n cs (AClass cn) (JObj kv) = true ->
@@ -394,10 +398,13 @@ Theorem obj_strict C S frs : forall fuel g gs nested pub cn tn sels tv out pub' 
 Proof.
   induction fuel as [|fuel IH]; intros g gs nested pub cn tn sels tv out pub' cs kv n Hp Hok Hst Htv Htab Hacc Hcov;
     [discriminate Hp|].
-  destruct (level_inv _ _ _ _ _ _ _ _ _ _ _ _ _ _ Hp Hok) as [f2 [g' [pfl [extra [Ef [Eg [Hrun Hout]]]]]]].
-  destruct (sels_ok_inv _ _ _ _ _ _ _ Hok) as [g'' [Eg' [Hfo [Hkeys [Hnames Hfields]]]]].
+  destruct (level_inv _ _ _ _ _ _ _ _ _ _ _ _ _ _ Hp Hok) as [f2 [g' [fns [pfl [extra [Ef [Eg [Hfl [Hrun Hout]]]]]]]]].
+  destruct (sels_ok_inv _ _ _ _ _ _ _ _ Hok) as [g'' [fns' [Eg' [Hfl' [Hkeys [Hnames Hfields]]]]]].
   rewrite Eg in Eg'. inversion Eg'; subst g''. clear Eg'. specialize (Hnames eq_refl).
+  rewrite Hfl in Hfl'. inversion Hfl'; subst fns'. clear Hfl'.
   destruct gs as [|gs']; [discriminate Hst|]. cbn [sels_strict] in Hst.
+  destruct (flatten gs' S frs tn tn sels) as [fns2|] eqn:Hfl2; [| discriminate Hst].
+  rewrite (flatten_det _ _ _ _ _ _ _ _ _ Hfl2 Hfl) in Hst. clear Hfl2 fns2.
   assert (Hc0 : In {| c_name := cn; c_bases := ["BaseModel"]; c_fields := pfl |} out)
     by (rewrite Hout; left; reflexivity).
   destruct (Htab _ Hc0) as [Hl Hnb]. simpl in Hl, Hnb.
@@ -411,7 +418,7 @@ Proof.
     set (n1 := Datatypes.S n2) in *.
     set (Wa := accepts (Datatypes.S n1) cs (schema_enums S)) in *.
     set (Wc := covers (Datatypes.S n1) cs) in *.
-    assert (HF : Forall2 (field_facts_rev C S frs (fun a j => Wa a j && Wc a j) tn) (fnodes_of sels) pfl).
+    assert (HF : Forall2 (field_facts_rev C S frs (fun a j => Wa a j && Wc a j) tn) fns pfl).
     { eapply (level_facts_rev C S frs fuel g' gs' cs); try eassumption.
       - intros a j. unfold Wa, Wc. simpl. destruct (is_null j); reflexivity.
       - intros a j. unfold Wa, Wc. simpl. destruct j; try reflexivity. apply forallb_andb.
@@ -430,8 +437,9 @@ Proof.
       - eapply table_ok_incl; [exact Htab|]. rewrite Hout. apply incl_tl, incl_refl. }
     destruct (level_strict C S frs tn Wa Wc kv _ _ HF Hkeys Hnames Hacc Hcov) as [Hkv Hspec].
     pose proof (ev_forallb (fun fc f => key_spec (lconf fc S frs) S tn kv f) _ Hspec) as [a Ha].
-    exists (Datatypes.S a). intros [|k] Hk; [lia|].
-    unfold obj_lconf. rewrite conf_obj_fields_only; [| exact Hfo | eapply keys_ok_nodup; eauto].
+    exists (max a g'). intros fc Hk.
+    unfold obj_lconf. rewrite (collect_scopes_flat_ex _ _ _ _ _ _ _ Hfl) by lia.
+    rewrite conf_obj_flat by (eapply keys_ok_nodup; eauto).
     simpl orb. apply andb_true_iff. split.
     + apply forallb_forall. intros p Hp'. apply mem_In, Hkv, Hp'.
     + apply Ha. lia.
@@ -443,7 +451,7 @@ Theorem op_strict C S frs fuel kind name sels root own pub' cls g gs j n :
   root_type_name S kind = Ok root ->
   op_parse fuel C S frs kind name [] sels = Ok (own, pub', false) ->
   all_classes fuel C S frs (DOp kind name [] sels) = Ok cls ->
-  op_ok g true C S root sels = true -> sels_strict gs C S false root sels = true ->
+  op_ok g true C S frs root sels = true -> sels_strict gs C S frs false root sels = true ->
   no_basemodel own = true ->
   accepts n cls (schema_enums S) (AClass (pascal_s name)) j = true ->
   covers n cls (AClass (pascal_s name)) j = true ->
@@ -466,7 +474,7 @@ Corollary op_strict_rejects C S frs fuel kind name sels root own pub' cls g gs j
   root_type_name S kind = Ok root ->
   op_parse fuel C S frs kind name [] sels = Ok (own, pub', false) ->
   all_classes fuel C S frs (DOp kind name [] sels) = Ok cls ->
-  op_ok g true C S root sels = true -> sels_strict gs C S false root sels = true ->
+  op_ok g true C S frs root sels = true -> sels_strict gs C S frs false root sels = true ->
   no_basemodel own = true ->
   (forall fc, conf_op_gen lax_leaf false fc S frs root sels j = false) ->
   covers n cls (AClass (pascal_s name)) j = true ->
